@@ -137,17 +137,29 @@ inductive Validator where
   | discrete | dubins | reedsShepp | dubins3D
 deriving Repr, DecidableEq
 
-/-- the call did nothing observable (Dubins3D: `getPath` found no path, `return false`). -/
-def noPath (queries : List Nat) : Result := ⟨false, none, queries, 0, 0⟩
+/-- Dubins3D: `getPath` found no path, `return false`.  As the code stands after the F75 fix the call
+counts one invalid motion (`counted = true`); before it, it changed nothing (`counted = false`).
+In both versions `lastValid` is left unset. -/
+def noPath (counted : Bool) (queries : List Nat) : Result :=
+  ⟨false, none, queries, 0, if counted then 1 else 0⟩
 
-/-- two-argument `checkMotion` of each validator, as the code stands after the F7 fix (every
-validator counts the early return).  `pathOk`: Dubins3D's `getPath(s1, s2)` succeeded (the other
+/-- two-argument `checkMotion` of each validator, as the code stands after the F7 and F75 fixes
+(every `return false` counts).  `pathOk`: Dubins3D's `getPath(s1, s2)` succeeded (the other
 validators never fail to produce a path).  Dubins3D asks about `s2` *before* `getPath`. -/
 def checkMotion2 (val : Validator) (pathOk : Bool) (n : Nat) (v : Nat → Bool) : Result :=
   match val with
   | .dubins3D =>
     if !v n then ⟨false, none, [n], 0, 1⟩
-    else if !pathOk then noPath [n]
+    else if !pathOk then noPath true [n]
+    else checkBisectGen true n v
+  | _ => checkBisectGen true n v
+
+/-- the same after the F7 fix but before the F75 fix: Dubins3D's no-path return counts nothing. -/
+def checkMotion2PreF75 (val : Validator) (pathOk : Bool) (n : Nat) (v : Nat → Bool) : Result :=
+  match val with
+  | .dubins3D =>
+    if !v n then ⟨false, none, [n], 0, 1⟩
+    else if !pathOk then noPath false [n]
     else checkBisectGen true n v
   | _ => checkBisectGen true n v
 
@@ -158,14 +170,20 @@ def checkMotion2Old (val : Validator) (pathOk : Bool) (n : Nat) (v : Nat → Boo
   | .discrete => checkBisectGen true n v
   | .dubins3D =>
     if !v n then ⟨false, none, [n], 0, 0⟩
-    else if !pathOk then noPath [n]
+    else if !pathOk then noPath false [n]
     else checkBisectGen false n v
   | _ => checkBisectGen false n v
 
-/-- three-argument `checkMotion` of each validator (Dubins3D calls `getPath` first). -/
+/-- three-argument `checkMotion` of each validator (Dubins3D calls `getPath` first), after F75. -/
 def checkMotion3 (val : Validator) (pathOk : Bool) (n : Nat) (v : Nat → Bool) : Result :=
   match val with
-  | .dubins3D => if !pathOk then noPath [] else checkLinear n v
+  | .dubins3D => if !pathOk then noPath true [] else checkLinear n v
+  | _ => checkLinear n v
+
+/-- before the F75 fix. -/
+def checkMotion3PreF75 (val : Validator) (pathOk : Bool) (n : Nat) (v : Nat → Bool) : Result :=
+  match val with
+  | .dubins3D => if !pathOk then noPath false [] else checkLinear n v
   | _ => checkLinear n v
 
 /-! ### `SpaceInformation::checkMotion(states, count, firstInvalidStateIndex)` and `(states, count)` -/
@@ -226,5 +244,55 @@ def checkStateList (count : Nat) (v : Nat → Bool) : ListResult :=
     let r := listLoop v [(0, count - 1)]
     ⟨r.1, none, 0 :: (count - 1) :: r.2⟩
   else ⟨true, none, [0, count - 1]⟩
+
+/-! ### `SpaceInformation::getMotionStates(s1, s2, states, count, endpoints, alloc)` -/
+
+/-- what a slot of `states` holds after the call: a copy of `s1`, a copy of `s2`, or
+`interpolate(s1, s2, (double)j / (double)c)`. -/
+inductive Slot where
+  | start
+  | frac (j c : Nat)
+  | goal
+deriving Repr, DecidableEq
+
+structure MSResult where
+  /-- the slots written, in order; the k-th write goes to `states[k]` (`states[added]`, `added++`) -/
+  written : List Slot
+  /-- `states.size()` after the call (`alloc` resizes, otherwise unchanged) -/
+  newSize : Nat
+deriving Repr, DecidableEq
+
+/-- the returned number of states (`added`). -/
+def MSResult.returned (r : MSResult) : Nat := r.written.length
+
+/-- `for (j = …; j < count && added < states.size(); ++j)`: `k` iterations left. -/
+def msLoop (c sz : Nat) (j added : Nat) : Nat → List Slot
+  | 0 => []
+  | k + 1 => if added < sz then Slot.frac j c :: msLoop c sz (j + 1) (added + 1) k else []
+
+/-- `getMotionStates`.  `size` is `states.size()` on entry.  `count++` is 32-bit unsigned: the callers
+that pass `validSegmentCount - 1` rely on `UINT_MAX + 1 = 0` for identical states.  (Assumption: apart
+from that wrap, `count + 2 < 2^32`.) -/
+def getMotionStates (count : Nat) (endpoints alloc : Bool) (size : Nat) : MSResult :=
+  let c := (count + 1) % 4294967296
+  if c < 2 then
+    if endpoints then
+      let sz := if alloc then 2 else size
+      ⟨(if 0 < sz then [Slot.start] else []) ++ (if 1 < sz then [Slot.goal] else []), sz⟩
+    else ⟨[], if alloc then 0 else size⟩
+  else
+    let sz := if alloc then (if endpoints then c + 1 else c - 1) else size
+    let w0 := if endpoints && decide (0 < sz) then [Slot.start] else []
+    let w1 := msLoop c sz 1 w0.length (c - 1)
+    let added := w0.length + w1.length
+    let w2 := if decide (added < sz) && endpoints then [Slot.goal] else []
+    ⟨w0 ++ w1 ++ w2, sz⟩
+
+/-- everything the call would write into an unbounded vector: `[s1]`, the `c - 1` interior points
+`j/c`, `[s2]` (end points only if asked for). -/
+def msFull (c : Nat) (endpoints : Bool) : List Slot :=
+  (if endpoints then [Slot.start] else []) ++
+    (if c < 2 then [] else (List.range' 1 (c - 1)).map (fun j => Slot.frac j c)) ++
+    (if endpoints then [Slot.goal] else [])
 
 end OmplModel.Motion
